@@ -9,7 +9,7 @@ from pyvc.execu import Contract, LoopSpec, register
 
 from .model import (
     ASYN, BASE, ENV_MODIFIES, GK_ALL, GK_CALL, INITIAL_ID, MATCH, SYNC, W, env_effect, kw_state, locked,
-    mstate, others_kept, prefix_kept, qarr, qh, qt, rtc, wf_world, queue_items_valid,
+    mstate, others_kept, prefix_kept, qarr, qh, qt, rtc, wf_world, queue_items_valid, AsyncBinding,
 )
 
 
@@ -146,15 +146,9 @@ class SyncProcessingLoop(ProcessingLoop):
 
 
 @register
-class AsyncProcessingLoop(ProcessingLoop):
+class AsyncProcessingLoop(AsyncBinding, ProcessingLoop):
     qualnames = [ASYN + "processing_loop"]
     params = [("self", "AsyncEngine")]
-    is_async = True
-
-    def pre(self, s, a):
-        f = super().pre(s, a)
-        f["async-engine-is-rtc"] = rtc(s)  # AsyncEngine.__init__ rejects rtc=False
-        return f
 
 
 # =========================================================================== _trigger
@@ -358,17 +352,16 @@ class SyncTrigger(Trigger):
 
 
 @register
-class AsyncTrigger(Trigger):
+class AsyncTrigger(AsyncBinding, Trigger):
     qualnames = [ASYN + "_trigger"]
     params = [("self", "AsyncEngine"), ("trigger_data", "TriggerData")]
-    is_async = True
 
 
 # =========================================================================== _activate
 from .model import (  # noqa: E402
     SMQ, smap_has, smap_val, valid_obj, wf_class, wf_transition, grouper_key, state_transitions,
 )
-from .callbacks import reg_has  # noqa: E402
+from .model import reg_has, group_empty  # noqa: E402
 
 
 def activation_groups(s0, t):
@@ -518,10 +511,9 @@ class SyncActivate(Activate):
 
 
 @register
-class AsyncActivate(Activate):
+class AsyncActivate(AsyncBinding, Activate):
     qualnames = [ASYN + "_activate"]
     params = [("self", "AsyncEngine"), ("trigger_data", "TriggerData"), ("transition", "Transition")]
-    is_async = True
 
 
 # =========================================================================== helpers of _trigger
@@ -573,7 +565,7 @@ class InitialTransition(Contract):
             "target-is-start-state": s.sel("Transition.target", t) == init_target(s0),
             "start-value-mapped": z3.Implies(sv != NONE, smap_has(s0, sv)),
             "wf": wf_transition(s, t),
-            "own-groups-registered-nowhere": z3.And(*[z3.Not(reg_has(s, k2)) for k2 in keys]),
+            "own-groups-have-no-callbacks": z3.And(*[group_empty(s, k2) for k2 in keys]),
         }
 
     def exc_post(self, s0, s, a, x):
